@@ -40,10 +40,20 @@ Definition start_user (g : grammar) : nat := hd 0 (rhs_of g 0).
 Definition la_exec (g : grammar) (aut : automaton) (q r : nat) : list nat :=
   LAl g aut (start_user g) (nullable_b g) (is_nt_b g) q r.
 
-(* the same function, tabulated once per (state, complete rule) so that the table generator does not
-   recompute it for every cell *)
+(* the same sets computed with sharing: the nullable list once, Follow once per nonterminal transition *)
+Definition follow_table (g : grammar) (aut : automaton) : list (ntrans * list nat) :=
+  let nl := nullable_list g in
+  let nb := fun X => Productive.nmem X nl in
+  map (fun x => (x, Followl g aut (start_user g) nb (is_nt_b g) x)) (all_trans aut).
+Fixpoint follow_lookup (ft : list (ntrans * list nat)) (x : ntrans) : list nat :=
+  match ft with [] => [] | (y, l) :: ft' => if ntrans_eqb x y then l else follow_lookup ft' x end.
+Definition la_fast (g : grammar) (aut : automaton) (ft : list (ntrans * list nat)) (q r : nat) : list nat :=
+  if Nat.eqb r 0 then [eof] else flat_map (follow_lookup ft) (lookback g aut q r).
+
+(* tabulated once per (state, complete rule) so that the table generator does not recompute it for every cell *)
 Definition la_table (g : grammar) (aut : automaton) : list (list (nat * list nat)) :=
-  map (fun q => map (fun r => (r, la_exec g aut q r)) (complete_rules g aut q)) (seq 0 (length aut)).
+  let ft := follow_table g aut in
+  map (fun q => map (fun r => (r, la_fast g aut ft q r)) (complete_rules g aut q)) (seq 0 (length aut)).
 Fixpoint assoc_list {A} (k : nat) (l : list (nat * list A)) : list A :=
   match l with [] => [] | (k', v) :: l' => if Nat.eqb k k' then v else assoc_list k l' end.
 Definition la_lookup (tabl : list (list (nat * list nat))) (q r : nat) : list nat :=
@@ -90,6 +100,12 @@ Definition warnings (gi : ginfo) (aut : automaton) (tabl : list (list (nat * lis
   flat_map (fun q => flat_map (fun a =>
       map (fun w => (q, a, w))
           (cell_warnings (candidates (gi_rules gi) aut (la_lookup tabl) (sprec_of gi) (rprec_of gi) q a)))
+    (seq 0 (gi_nsyms gi))) (seq 0 (length aut)).
+
+(* cells with more than one candidate action (shift and/or reduces on the same lookahead) *)
+Definition conflict_cells (gi : ginfo) (aut : automaton) (tabl : list (list (nat * list nat))) : list (nat * nat) :=
+  flat_map (fun q => flat_map (fun a =>
+      if Nat.leb 2 (length (candidates (gi_rules gi) aut (la_lookup tabl) (sprec_of gi) (rprec_of gi) q a)) then [(q, a)] else [])
     (seq 0 (gi_nsyms gi))) (seq 0 (length aut)).
 
 (* ---------- split, defaults, packing (LALR.go TrySplitTable, Utils/packtable.go) ---------- *)
@@ -187,6 +203,7 @@ Record tables := {
   t_la : list (list (nat * list nat));
   t_dense : list (list Z);
   t_warn : list (nat * nat * (nat * nat));
+  t_conf : list (nat * nat);
   t_packed : packed;
   t_need_packed : bool
 }.
@@ -204,6 +221,7 @@ Definition generate_tables (gi : ginfo) : gen_error + tables :=
       let p := compress dense (gi_nterm gi) (gi_nsyms gi) n in
       inr {| t_aut := aut; t_la := tabl; t_dense := dense;
              t_warn := warnings gi aut tabl;
+             t_conf := conflict_cells gi aut tabl;
              t_packed := p; t_need_packed := need_packed p n (gi_nsyms gi) |}
     end
   end.
